@@ -169,7 +169,6 @@ func (c *Ctx) SendAllRejectionsDiagnosed(ob *core.Obligation) {
 		ob.Unknown("anchor:analysis.CheckResult.unboundedSend", "-", "checker state fields not found")
 		return
 	}
-	pc := core.NewPathConds(chk)
 	for _, kind := range sortedBlockKeys(rEntries) {
 		entry := rEntries[kind]
 		rejects := false
@@ -206,30 +205,52 @@ func (c *Ctx) SendAllRejectionsDiagnosed(ob *core.Obligation) {
 			ob.Fail(key, c.P.Pos(chk.Pos()), "the interpreter rejects "+kind+" sources in send-all mode but the checker has no arm for that kind")
 			continue
 		}
-		found := false
-		for _, b := range chk.Blocks {
-			if !kentry.Dominates(b) {
-				continue
-			}
-			for _, in := range b.Instrs {
-				st, ok := in.(*ssa.Store)
-				if !ok || core.FieldOf(st.Addr) != diagF {
-					continue
-				}
-				if pc.Requires(b, func(l core.Lit) bool {
-					ld, ok := l.Cond.(*ssa.UnOp)
-					return ok && ld.Op == token.MUL && core.FieldOf(ld.X) == flagF && l.Val
-				}) {
-					found = true
-				}
-			}
-		}
+		found := c.diagUnderFlag(chk, kentry, diagF, flagF, src, false, 0)
 		if found {
 			ob.Pass(key, c.P.Pos(firstPos(kentry)), "a diagnostic is emitted for "+kind+" under the send-all flag")
 		} else {
 			ob.Fail(key, c.P.Pos(firstPos(kentry)), "the interpreter can reject a "+kind+" source in send-all mode, but the checker's arm for it emits no diagnostic conditional on the send-all flag: nothing reported, yet the run fails on the shape of the source")
 		}
 	}
+}
+
+// diagUnderFlag: in the blocks of fn dominated by entry (the whole function when entry is nil)
+// a diagnostic is appended on a path that requires the flag field to be true; helper methods
+// called from the region (not the traversal functions over the sum) are followed.
+func (c *Ctx) diagUnderFlag(fn *ssa.Function, entry *ssa.BasicBlock, diagF, flagF *types.Var, sum *types.Named, underFlag bool, depth int) bool {
+	if fn == nil || len(fn.Blocks) == 0 || depth > 3 {
+		return false
+	}
+	pc := core.NewPathConds(fn)
+	isFlag := func(l core.Lit) bool {
+		ld, ok := l.Cond.(*ssa.UnOp)
+		return ok && ld.Op == token.MUL && core.FieldOf(ld.X) == flagF && l.Val
+	}
+	for _, b := range fn.Blocks {
+		if entry != nil && !entry.Dominates(b) {
+			continue
+		}
+		for _, in := range b.Instrs {
+			switch x := in.(type) {
+			case *ssa.Store:
+				if core.FieldOf(x.Addr) == diagF && (underFlag || pc.Requires(b, isFlag)) {
+					return true
+				}
+			case *ssa.Call:
+				sc := x.Call.StaticCallee()
+				if sc == nil || sc == fn || !c.P.InModule(sc) || relOfFn(sc) != relOfFn(fn) {
+					continue
+				}
+				if len(clauseEntries(sc, sum)) > 1 {
+					continue // a traversal over the sum: its arms are judged on their own
+				}
+				if c.diagUnderFlag(sc, nil, diagF, flagF, sum, underFlag || pc.Requires(b, isFlag), depth+1) {
+					return true
+				}
+			}
+		}
+	}
+	return false
 }
 
 func sortedBlockKeys(m map[string]*ssa.BasicBlock) []string {
